@@ -128,7 +128,11 @@ class Fragment:
                 hier_name = f"<unnamed #{i}>"
 
             for domain in self.iter_domains():
-                if domain not in subfrag.domains:
+                if isinstance(subfrag, (Instance, IOBufferInstance)):
+                    # An instance cannot define clock domains. Any it already has were propagated
+                    # to it when the same (reusable) object was elaborated before, and are stale.
+                    subfrag.domains[domain] = self.domains[domain]
+                elif domain not in subfrag.domains:
                     subfrag.add_domains(self.domains[domain])
 
             subfrag._propagate_domains_down(hierarchy + (hier_name,))
